@@ -7,7 +7,7 @@ import warnings
 
 from prov.constants import (PROV, PROV_ENTITY, PROV_ACTIVITY, PROV_AGENT, PROV_ATTRIBUTE_LITERALS, PROV_LABEL, PROV_LOCATION, PROV_ROLE,
                             PROV_TYPE, PROV_VALUE)
-from prov.identifier import Identifier, QualifiedName
+from prov.identifier import Identifier, QualifiedName, Namespace
 from prov.model import Literal, ProvDocument, PROV_REC_CLS
 
 from ..gen import Gen
@@ -107,6 +107,9 @@ class RdfBuilder:
             if r.random() < 0.25:
                 # a name Turtle cannot abbreviate (its local part has a slash): written as a full IRI; when nothing else of that
                 # namespace is written in abbreviated form the text carries no @prefix line for it
+                if r.random() < 0.35:
+                    # … in a namespace nothing else in the document uses: certainly no @prefix line
+                    return QualifiedName(Namespace("lone", "http://lonely.example/ns/"), r.choice(["p/q%d", "10.1000/x%d"]) % r.randint(0, 4))
                 return QualifiedName(r.choice(self.nss), r.choice(["10.5281/zenodo.%d", "a/b%d", "p/q/r%d"]) % r.randint(0, 4))
             return self.name()
         if r.random() < 0.3:
